@@ -300,7 +300,7 @@ TrBurst ==
           THEN \* a caller that does not read for three seconds: every progressive result and the
                \* final one still arrive, in yield order (the retry path of C07 must not reorder, C08)
                LET q == SelectSeq(LoggedFor(r, "zc"), LAMBDA m : m.k = "RESULT") IN
-               /\ Commit(Cur)
+               /\ Commit([Cur EXCEPT !.now = r.now])
                /\ Len(q) = r.in.id + 1
                /\ \A j \in DOMAIN q : q[j].x = j
                /\ (l + 1 > Len(TraceLog) \/ TraceLog[l + 1].ev = "reset")
